@@ -26,6 +26,7 @@ type SpecEnv struct {
 	errs     []string
 	hdr      *ssa.BasicBlock
 	depth    int
+	ownFrame bool // evaluating the verified function's own `modifies`
 }
 
 func (env *SpecEnv) fail(format string, args ...interface{}) Val {
@@ -770,6 +771,10 @@ func (env *SpecEnv) callExpr(x ECall) Val {
 	case "off":
 		v := env.eval(x.Args[0])
 		return intVal(slOff(v.T))
+	case "same":
+		// identical values (for floats: the same datum, NaN included)
+		a, b := env.eval(x.Args[0]), env.eval(x.Args[1])
+		return boolVal(eq(a.T, b.T))
 	case "update":
 		g, k, v := env.eval(x.Args[0]), env.eval(x.Args[1]), env.eval(x.Args[2])
 		return Val{T: sto(g.T, k.T, v.T), S: g.S, GoT: g.GoT, Ghost: g.Ghost}
@@ -864,6 +869,19 @@ func (env *SpecEnv) callExpr(x ECall) Val {
 			return env.fail("strpos: no string range in scope")
 		}
 		return intVal(env.st.ghost[name].T)
+	case "pointee":
+		// pointee(s, x): x is one of the objects the elements of slice s pointed
+		// to at function entry
+		if env.old == nil {
+			return env.fail("pointee: no entry state")
+		}
+		sv := env.inOld().eval(x.Args[0])
+		xv := env.eval(x.Args[1])
+		sl, ok := sv.GoT.Underlying().(*types.Slice)
+		if !ok {
+			return env.fail("pointee: first argument must be a slice of pointers")
+		}
+		return boolVal(sel(e.pointeeSet(env.old, sv, sl), xv.T))
 	case "held":
 		// held(mutexptr) -> lock mode 0 none, 1 read, 2 write
 		v := env.eval(x.Args[0])
@@ -1017,6 +1035,10 @@ func (env *SpecEnv) evalLoc(x Expr) []heapLoc {
 						k := fmt.Sprintf("k_q%d", e.qn)
 						return fmt.Sprintf("(exists ((%s Int)) (and (<= 0 %s) (< %s %s) (= %s %s)))", k, k, k, slLen(v.T), r, elemT(k))
 					}
+					if env.ownFrame && !env.typeOnly {
+						P := e.pointeeSet(env.st, v, sl)
+						pred = func(r string) string { return sel(P, r) }
+					}
 					var out []heapLoc
 					for _, hl := range env.allFields("0", p.Elem()) {
 						out = append(out, heapLoc{heap: hl.heap, pred: pred})
@@ -1155,4 +1177,19 @@ func (env *SpecEnv) binaryBV(x EBin, l, r Val) Val {
 		return Val{T: app("bvshl", l.T, r.T), S: l.S, GoT: l.GoT}
 	}
 	return env.fail("operator %s not supported in bv mode", x.Op)
+}
+
+// pointeeSet: the ghost set (characteristic array) of the objects the
+// elements of slice v point to in state st, defined by two axioms.
+func (e *Exec) pointeeSet(st *State, v Val, sl *types.Slice) string {
+	key := "P$" + fmt.Sprintf("%x", hashString(v.T))
+	if _, ok := e.ctx.declared[key]; ok {
+		return key
+	}
+	e.ctx.declare(key, arraySort(sInt, sBool))
+	ht := e.heapTerm(st, e.elemHeap(sl.Elem()))
+	el := e.elemAt(ht, sl.Elem(), v.T, "j")
+	e.ctx.assume(fmt.Sprintf("(forall ((j Int)) (! (=> (and (<= 0 j) (< j %s)) (select %s %s)) :pattern (%s)))", slLen(v.T), key, el, el))
+	e.ctx.assume(fmt.Sprintf("(forall ((r Int)) (! (=> (select %s r) (exists ((j Int)) (and (<= 0 j) (< j %s) (= r %s)))) :pattern ((select %s r))))", key, slLen(v.T), el, key))
+	return key
 }
